@@ -376,6 +376,7 @@ pub fn shrink_case(case: &ParseCase) -> Vec<ParseCase> {
             }));
         }
     }
+    out.retain(|c| c.src.live());
     out
 }
 
